@@ -51,6 +51,7 @@ var c20Values = []struct {
 	{gmodel.Num("1,00,000.00", "100000"), false},
 	{gmodel.Num("0.125", "1/8"), true},
 	{gmodel.Num("0,250", "1/4"), true},
+	{gmodel.Num("1.5E2", "150"), false},
 }
 
 func c20Amount(i int, sym string) *gmodel.Amount {
